@@ -33,7 +33,9 @@ regenerate = pipecheck.regenerate
 
 
 def cases(rng, tier):
-    n = fw.tier_scale(tier, 1200, 12000)
+    n = fw.tier_scale(tier, 900, 12000)
+    for p in pipes.gen_systematic(rng, fw.tier_scale(tier, 4, 12)):
+        yield {"op": "pipeline", "pipeline": p}
     for _ in range(n):
         yield {"op": "pipeline", "pipeline": pipes.gen_case(rng, 3)}
 
